@@ -65,7 +65,7 @@ class EccHarness(Harness):
         self.lane_sel = lane_sel
         self.full_we = (1 << (k * burst // 8)) - 1
         if case_list is not None:
-            self.cases = [tuple(x) for x in case_list]          # (data, flipmask, we)
+            self.cases = [tuple(x) for x in case_list]          # (data, flipmask, we[, flipmask of the other lane's ECC word])
         else:
             nb, cs = cases_for(k, tier, burst)
             self.cases = [(d, f, self.full_we) for d, f in cs]
@@ -100,7 +100,7 @@ class EccHarness(Harness):
 
     def describe(self, ch):
         if ch[0] == "case":
-            d, f, we = self.cases[ch[1]]
+            d, f, we = self.cases[ch[1]][:3]
             return "case data=%x flip=%x we=%x" % (d, f, we)
         return "go=%d cmd.ready=%d serve=%s" % (ch[0], ch[1][0], list(ch[1][1]))
 
@@ -109,7 +109,8 @@ class EccHarness(Harness):
         I = list(self.base)
         if ch[0] == "case": return tuple(I)
         go, rch = ch
-        d, f, we = self.cases[ci]
+        d, f, we = self.cases[ci][:3]
+        f2 = self.cases[ci][3] if len(self.cases[ci]) > 3 else 0
         if ph == 1:
             if go and not cdone:
                 I[self.i_valid] = 1; I[self.i_we] = 1; I[self.i_addr] = 3
@@ -120,7 +121,7 @@ class EccHarness(Harness):
         # the memory corrupts the stored word when it is read back
         if rch[1] and not rs[0][rch[1][0]][1]:
             a = rs[0][rch[1][0]][2]
-            w = self.resp.mem_get(rs[1], a) ^ (f << (self.lane_sel * self.lane_to))
+            w = self.resp.mem_get(rs[1], a) ^ (f << (self.lane_sel * self.lane_to)) ^ (f2 << ((1 - self.lane_sel) * self.lane_to) if f2 else 0)
             rs = (rs[0], self.resp.mem_set(rs[1], a, w))
         self.resp.drive(rs, rch, I)
         return tuple(I)
@@ -130,8 +131,9 @@ class EccHarness(Harness):
         if ch[0] == "case":
             return (1, ch[1], 0, 0, 0, 0, rs, 0, 0), 0
         go, rch = ch
-        d, f, we = self.cases[ci]
-        nflip = bin(f).count("1")
+        d, f, we = self.cases[ci][:3]
+        f2 = self.cases[ci][3] if len(self.cases[ci]) > 3 else 0
+        nflip = bin(f).count("1"); nflip2 = bin(f2).count("1")
         partial = we != self.full_we
         rs2, evs = self.resp.observe(rs, rch, S, I, O)
         prog = bool(evs)
@@ -155,6 +157,11 @@ class EccHarness(Harness):
             got = (self.r_rdata(S, I, O) >> (self.lane_sel * self.k)) & ((1 << self.k) - 1)
             if not partial and nflip <= 1 and got != d:
                 self.report("ecc.data_corrupted", "read back %x, written %x (flip mask %x: %d flipped bit(s))" % (got, d, f, nflip), nflip=nflip)
+            if f2 and not partial and nflip2 <= 1:
+                ol = 1 - self.lane_sel
+                got2 = (self.r_rdata(S, I, O) >> (ol * self.k)) & ((1 << self.k) - 1)
+                if got2 != (0x5A5A5A5A5A5A5A5A & ((1 << self.k) - 1)):
+                    self.report("ecc.data_corrupted", "other lane read back %x (flip mask %x there: %d flipped bit(s))" % (got2, f2, nflip2), nflip=nflip2)
             self.cov["reads"] = self.cov.get("reads", 0) + 1
             rg += 1
             if rg == self.nreads: ph = 5; delay = 0
@@ -162,7 +169,15 @@ class EccHarness(Harness):
             delay += 1
             if delay == 3:
                 sec, ded, wee = self.r_sec(S, I, O), self.r_ded(S, I, O), self.r_weerr(S, I, O)
-                if nflip == 0:
+                if f2:
+                    # two ECC words of the same beat are faulty: each is judged on its own (single flips here avoid the one uncounted position)
+                    if 1 in (nflip, nflip2) and sec != self.nreads:
+                        self.report("ecc.single_not_counted", "one ECC word of the beat has a single flip (masks %x / %x) but sec_errors = %d after %d read(s)" % (f, f2, sec, self.nreads), nflip=1)
+                    if 2 in (nflip, nflip2) and ded != self.nreads:
+                        self.report("ecc.double_not_flagged", "one ECC word of the beat has a double flip (masks %x / %x) but ded_errors = %d after %d read(s)" % (f, f2, ded, self.nreads), nflip=2)
+                    if 2 not in (nflip, nflip2) and ded:
+                        self.report("ecc.single_reported_uncorrectable", "single flips only (masks %x / %x) but ded_errors = %d" % (f, f2, ded), nflip=1)
+                elif nflip == 0:
                     if sec or ded: self.report("ecc.false_alarm", "clean word reported sec=%d ded=%d" % (sec, ded), nflip=0)
                 elif nflip == 1:
                     if ded: self.report("ecc.single_reported_uncorrectable", "single flip %x counted as uncorrectable" % f, nflip=1)
@@ -202,6 +217,10 @@ def configs(tier):
     add("enum-k8", k=8, tier=tier)
     add("enum-k8-burst2-lane1", k=8, burst=2, lane_sel=1, tier="quick")
     add("enum-k16", k=16, tier=tier)
+    # faults in two ECC words of the same beat (each word is judged on its own): single/double flips in lane 0 x single/double flips in lane 1
+    fl = [1 << 2, 1 << 6, (1 << 2) | (1 << 9), (1 << 4) | (1 << 11)]
+    add("enum-k8-burst2-twolanes", k=8, burst=2, case_list=[(d, a, 3, b) for d in (0xA7, 0x00, 0xFF) for a in fl for b in fl])
+    add("enum-k16-burst2-twolanes", k=16, burst=2, case_list=[(0xBEEF, a, 15, b) for a in fl for b in fl])
     if tier == "thorough":
         add("enum-k32", k=32, tier=tier)
         add("enum-k64", k=64, tier="quick")
